@@ -52,7 +52,11 @@ pub fn normalise_site(s: &str) -> String {
         Some(i) => (&s[..i], &s[i + 2..]),
         None => (s, ""),
     };
-    let loc = loc.trim_start_matches("/repo/");
+    // the crate's sources may live in a snapshot of /repo (background runs): keep "src/..."
+    let loc = match loc.find("/src/internal/").or_else(|| loc.find("/src/lib.rs")) {
+        Some(i) if loc.starts_with('/') => &loc[i + 1..],
+        _ => loc.trim_start_matches("/repo/"),
+    };
     let mut m = String::new();
     let mut last_hash = false;
     for c in msg.chars().take(80) {
